@@ -1137,7 +1137,64 @@ func groupBehave(s *sink, g *hx.Gen) {
 		}
 		s.stats["behave:"+note+":"+xa.R]++
 	}
+	// the same tree with its NESTED scopes not linked at construction: written as plain
+	// &ScopeSchema{} values (only the root's NewScopeSchema links them), and rebuilt from its own
+	// description (SelfSerialize + UnserializeScope); both must behave like the tree itself
+	var variants []struct {
+		what string
+		s    schema.Type
+	}
+	if hasNestedScope(t) {
+		var plain, rebuilt schema.Type
+		if res := hx.Guard(func() hx.Result { plain = (&nsBuilder{plainNested: true}).build(t); return hx.Result{R: "ok"} }); res.R != "ok" {
+			s.finding(Finding{Prop: "C14", What: "building the tree with plain nested scopes panicked: " + res.Msg, Schema: t})
+		} else if err := plain.ValidateReferences(); err != nil {
+			s.finding(Finding{Prop: "C14", What: "nested scopes written as plain values stay unlinked after the root scope applied itself: " + err.Error(), Schema: t})
+		} else {
+			variants = append(variants, struct {
+				what string
+				s    schema.Type
+			}{"plain nested scopes", plain})
+		}
+		res := hx.Guard(func() hx.Result {
+			d, err := t.Build().(*schema.ScopeSchema).SelfSerialize()
+			if err != nil {
+				// not a linking matter (e.g. enum values without display values cannot be described)
+				return hx.Result{R: "fuel"}
+			}
+			sc, err := schema.UnserializeScope(d)
+			if err != nil {
+				return hx.Result{R: "err", Msg: "UnserializeScope: " + err.Error()}
+			}
+			if err := sc.ValidateReferences(); err != nil {
+				return hx.Result{R: "err", Msg: "ValidateReferences of the rebuilt scope: " + err.Error()}
+			}
+			rebuilt = sc
+			return hx.Result{R: "ok"}
+		})
+		if res.R == "fuel" {
+			s.stats["behave:not-describable"]++
+		} else if res.R != "ok" {
+			s.finding(Finding{Prop: "C14", What: "a valid linked tree with nested scopes cannot be rebuilt from its own description: " + res.Msg, Schema: t})
+		} else {
+			variants = append(variants, struct {
+				what string
+				s    schema.Type
+			}{"rebuilt from description", rebuilt})
+		}
+		s.stats["behave:nested-scope-trees"]++
+	}
 	for _, v := range vals {
+		if canBuild(v) {
+			for _, vr := range variants {
+				ra := hx.Guard(func() hx.Result { rr, _ := hx.RunOpRaw("U", t.Build(), v.ToGo()); return rr })
+				rv, idv, _ := s.emitAgainst("U", t, vr.s, v, nil, false, "refs:"+vr.what)
+				if !sameResult(ra, rv) {
+					s.finding(Finding{Prop: "C14", What: "Unserialize differs between a tree and the same tree with " + vr.what, Cases: []int{idv}, Schema: t, Input: v, Detail: []string{ra.JSON(), rv.JSON()}})
+				}
+				s.stats["behave:"+vr.what+":"+rv.R]++
+			}
+		}
 		depthOf := 0
 		v.Walk(func(*hx.Val) { depthOf++ })
 		s.stats["behave:value-nodes"] += depthOf
@@ -1215,6 +1272,17 @@ func groupBehave(s *sink, g *hx.Gen) {
 			both("S", natE, outE, true, "S-disabled-set")
 		}
 	}
+}
+
+// hasNestedScope: is there a scope below the top one?
+func hasNestedScope(t *hx.Ty) bool {
+	n := 0
+	t.WalkTy(func(x *hx.Ty) {
+		if x.T == "scope" {
+			n++
+		}
+	})
+	return n > 1
 }
 
 func hasDisabled(t *hx.Ty) bool {
